@@ -41,6 +41,16 @@ def presentations(modname, v, rng):
         out.append(('sbn-hyphenated', v[1:4] + '-' + v[4:9] + '-' + v[9]))
     out.append(('whitespace', '  ' + v + '\t'))
     out.append(('lower', v.lower()))
+    # every separator in groups of three and of two ("whether or not the input carries separators"); kept below only
+    # if the source module reads them as the same number
+    bare = ''.join(ch for ch in v if ch.isalnum())
+    for sepch in ('.', '-', ' ', '/', ':'):
+        for g in (3, 2, 4):
+            if len(bare) > g:
+                out.append(('grouped' + sepch, sepch.join(bare[i:i + g] for i in range(0, len(bare), g))))
+    if bare[:1].isdigit() and len(bare) < 16:
+        out.append(('zero-filled', bare.zfill(len(bare) + 4)))
+        out.append(('zero-filled', '0000' + '.' + bare))
     # keep only presentations the source module itself accepts as the same number
     c = canon(modname, v)
     return [(k, x) for k, x in out if canon(modname, x) == c and c is not None]
@@ -75,7 +85,8 @@ def rows():
         if back[0] != 'ok' or canon('isbn', back[1]) != c:
             return 'to_isbn13(to_isbn10(%r)) = %r, not the source' % (x, back[1:2])
     R.append(dict(name='isbn.to_isbn10', src='isbn', keep=lambda v: len(v) == 13 and v.startswith('978'),
-                  convert=lambda x: M('isbn').to_isbn10(x), check=chk_isbn10))
+                  convert=lambda x: M('isbn').to_isbn10(x), check=chk_isbn10,
+                  trigger=lambda c, x: 'separator-inside-the-978-prefix' if not x.strip().startswith('978') else 'prefix-written-together'))
     R.append(dict(name='isbn.to_isbn10[979 refusal]', src='isbn', keep=lambda v: len(v) == 13 and v.startswith('979'),
                   convert=lambda x: M('isbn').to_isbn10(x), refusal=True, check=lambda c, x, res: 'a 979 ISBN-13 has no ISBN-10 but got %r' % (res,)))
 
@@ -126,7 +137,7 @@ def rows():
         return chk
     R.append(dict(name='es.ccc.to_iban', src='es.ccc', convert=lambda x: M('es.ccc').to_iban(x), check=mk_iban('es.ccc', 'es.iban', 'to_ccc')))
     R.append(dict(name='no.kontonr.to_iban', src='no.kontonr', convert=lambda x: M('no.kontonr').to_iban(x), check=mk_iban('no.kontonr', 'no.iban', 'to_kontonr'),
-                  trigger=lambda c, x: 'short-or-blank-padded-account' if len(c) < 11 or x != x.strip() else 'full-length-account'))
+                  trigger=lambda c, x: 'short-or-blank-padded-account' if sum(ch.isdigit() for ch in x) < 11 or x != x.strip() else 'full-length-account'))
 
     def chk_iban_to(natmod):
         def chk(c, x, res):
@@ -400,7 +411,7 @@ def run_row(row, tier, rng, viols, keys, counters):
                     keys.add((row['name'], c, pclass))
                     counters['documented_refusals'] += 1
                     continue
-                add(viols, 'C08|%s|conversion-refuses-valid-source' % row['name'],
+                add(viols, 'C08|%s|conversion-refuses-valid-source%s' % (row['name'], trig(row, c, x)),
                     '%s(%r) raised %s for a valid %s' % (row['name'], x, type(e).__name__, src), {'row': row['name'], 'x': x, 'canon': c})
                 continue
             except Exception as e:  # noqa: B902
